@@ -1,7 +1,7 @@
 /-
   C11 — The framework is quiescent between reaction trees (control part: counter, postponed queue, callbacks).
 -/
-import Cobweb.Proofs.Flags
+import Cobweb.Proofs.Pending
 
 namespace Cobweb.C11
 
@@ -32,6 +32,32 @@ theorem quiescent_flags (hc : Ctl s0) (ho : OnceInv s0) (hf : FlagInv s0) (hr : 
   simp only [Fl, Prod.mk.injEq] at hi
   exact ⟨hi.1, hi.2.1, hi.2.2.1, hi.2.2.2, this.2⟩
 
-example : Ctl ({} : St) ∧ OnceInv ({} : St) ∧ FlagInv ({} : St) := ⟨ctl_default, once_default, flag_default⟩
+/-- At quiescence no tracker holds a prepared entry: every entry that was prepared has been consumed by the `setup` of
+    the command that waited for it (run or aborted), along every execution. -/
+theorem quiescent_trackers (hc : Ctl s0) (hp : Pend s0) (hr : Reach p h s0 s) (hq : s.stack = []) :
+    s.trkSys.prepared = [] ∧ s.trkEvt.prepared = [] ∧ s.trkEnt.prepared = [] ∧ s.trkDsp.prepared = [] := by
+  have hb := (quiescent_control p h hc hr hq).2.1
+  have hP := pend_reach p h hp hr
+  have hnil : ∀ T, prep T s = [] := by
+    intro T
+    have := hP T
+    simp only [allPending, hb, hq, stackPending, List.flatMap_nil, List.append_nil, pend_nil] at this
+    exact List.Perm.eq_nil this
+  exact ⟨by simpa [prep] using hnil .sys, by simpa [prep] using hnil .evt, by simpa [prep] using hnil .ent,
+    by simpa [prep] using hnil .dsp⟩
+
+/-- **C11 for the model, in one statement**: in every quiescent state reachable from the initial state, the tree
+    counter is zero, no command is postponed, every live system command has its callback, no tracker is flagged as
+    reacting or holds a prepared entry, and the world command queue is empty. -/
+theorem C11_quiescent (hr : Reach p h ({} : St) s) (hq : s.stack = []) :
+    s.counter = 0 ∧ s.buffered = [] ∧ (∀ e, s.alive e = true → s.storage e ≠ some false) ∧
+    (s.trkSys.reacting = false ∧ s.trkEvt.reacting = false ∧ s.trkEnt.reacting = false ∧ s.trkDsp.reacting = false) ∧
+    (s.trkSys.prepared = [] ∧ s.trkEvt.prepared = [] ∧ s.trkEnt.prepared = [] ∧ s.trkDsp.prepared = []) ∧ s.wq = [] := by
+  obtain ⟨a, b, c⟩ := quiescent_control p h ctl_default hr hq
+  obtain ⟨f1, f2, f3, f4, w⟩ := quiescent_flags p h ctl_default once_default flag_default hr hq
+  exact ⟨a, b, c, ⟨f1, f2, f3, f4⟩, quiescent_trackers p h ctl_default pend_default hr hq, w⟩
+
+example : Ctl ({} : St) ∧ OnceInv ({} : St) ∧ FlagInv ({} : St) ∧ Pend ({} : St) :=
+  ⟨ctl_default, once_default, flag_default, pend_default⟩
 
 end Cobweb.C11
